@@ -111,6 +111,10 @@ def run_case(case):
         opn = float(np.linalg.norm(ONDFT.ndft_matrix(coord, desc["ishape"][-desc["nd"]:]), 2))
     else:
         tol = 1e-10
+    single = (not toep) and sum(case["rs"]) % 6 == 0
+    if single:
+        tol = 2e-4
+        sig += "|c64"
     obs = {}
     checks = 0
     try:
@@ -121,9 +125,9 @@ def run_case(case):
                 N.oshape, N.ishape, A.ishape, A.ishape), wit, mech="shape")
         worst = 0.0
         for k in range(3):
-            x = crandn(rng, tuple(A.ishape))
+            x = crandn(rng, tuple(A.ishape), np.complex64 if single else np.complex128)
             if k == 2 and x.size:           # sparse probe: isolates coverage-count errors
-                x = np.zeros(tuple(A.ishape), np.complex128)
+                x = np.zeros(tuple(A.ishape), np.complex64 if single else np.complex128)
                 x.reshape(-1)[int(rng.integers(x.size))] = 1 + 1j
             STATE.peak = 0.0
             Ax_ = A(x)
@@ -148,7 +152,7 @@ def run_case(case):
             q = inner(got, x)
             checks += 1
             qs = abs(q) + nrm(x) ** 2 * 1e-3
-            ptol = 1e-9 if not toep else 1e-4
+            ptol = 1e-9 if not (toep or single) else 1e-4
             if not (abs(q.imag) <= ptol * qs and q.real >= -ptol * qs):
                 return violated(sig, "<A.N x, x> = %s is not real non-negative" % q, wit,
                                 mech="psd", obs={"q": [q.real, q.imag]})
